@@ -122,6 +122,7 @@ type DataOpts struct {
 	Metrics     []string // metric names to draw from (default m, n, k)
 	Big         bool     // occasionally draw 64..260 series
 	Twins       bool     // add series that differ from another one only in the metric name and take over where it ends
+	FewValues   bool     // label values from {1, 2} only, so that groups have several members
 }
 
 type Dataset struct {
@@ -135,6 +136,9 @@ var labelNames = []string{"a", "b", "c"}
 var labelValues = []string{"1", "2", "3"}
 
 var intervals = []int64{5000, 10000, 15000, 30000, 37000, 60000, 300000}
+
+// leValues are bucket bounds; "1"/"1.0"/"1e0", "5"/"5.0" and "+Inf"/"Inf" are equal as numbers.
+var leValues = []string{"0.1", "1", "5", "+Inf", "+Inf", "x", "1.0", "5.0", "Inf", "1e0", "-1", "0"}
 
 func DrawDataset(t *rapid.T, w Window, o DataOpts) Dataset {
 	maxSeries := o.MaxSeries
@@ -177,6 +181,9 @@ func DrawDataset(t *rapid.T, w Window, o DataOpts) Dataset {
 	if n > 40 {
 		minIv = (dataHi - dataLo) / 40
 	}
+	// Bucket families: several h_bucket series that share their labels and differ in le
+	// only, including bounds that are equal as numbers but spelled differently.
+	var family [][]core.Label
 	for i := 0; i < n; i++ {
 		var lbls []core.Label
 		mnames := metricNames
@@ -187,19 +194,43 @@ func DrawDataset(t *rapid.T, w Window, o DataOpts) Dataset {
 		if o.Histogram && chance(t, 1, 3, "hist") {
 			name = "h_bucket"
 		}
+		if len(family) > 0 {
+			name = "h_bucket"
+		}
 		lbls = append(lbls, core.Label{N: "__name__", V: name})
-		for _, ln := range labelNames {
-			if o.AllLabelled || chance(t, 2, 3, "has_"+ln) {
-				lbls = append(lbls, core.Label{N: ln, V: pick(t, labelValues, "val_"+ln)})
+		if len(family) > 0 {
+			lbls = family[0]
+			family = family[1:]
+		} else {
+			for _, ln := range labelNames {
+				if o.AllLabelled || chance(t, 2, 3, "has_"+ln) {
+					vals := labelValues
+					if o.FewValues {
+						vals = labelValues[:2]
+					}
+					lbls = append(lbls, core.Label{N: ln, V: pick(t, vals, "val_"+ln)})
+				}
 			}
-		}
-		if chance(t, 1, 5, "has_Z") {
-			// a label name that sorts before __name__
-			lbls = append([]core.Label{{N: "Z", V: pick(t, []string{"1", "2"}, "val_Z")}}, lbls...)
-		}
-		if name == "h_bucket" {
-			le := pick(t, []string{"0.1", "1", "5", "+Inf", "+Inf", "x"}, "le")
-			lbls = append(lbls, core.Label{N: "le", V: le})
+			if chance(t, 1, 5, "has_Z") {
+				// a label name that sorts before __name__
+				lbls = append([]core.Label{{N: "Z", V: pick(t, []string{"1", "2"}, "val_Z")}}, lbls...)
+			}
+			if name == "h_bucket" {
+				base := append([]core.Label(nil), lbls...)
+				le := pick(t, leValues, "le")
+				lbls = append(lbls, core.Label{N: "le", V: le})
+				if chance(t, 1, 2, "family") {
+					used := map[string]bool{le: true}
+					for k := ir(t, 1, 5, "famsize"); k > 0; k-- {
+						l := pick(t, leValues, "famle")
+						if used[l] {
+							continue
+						}
+						used[l] = true
+						family = append(family, append(append([]core.Label(nil), base...), core.Label{N: "le", V: l}))
+					}
+				}
+			}
 		}
 		key := ""
 		for _, l := range lbls {
